@@ -137,6 +137,12 @@ def scalars(bits, seed, tier="thorough"):
                     vals.append(c * X**i + d)
                     vals.append(c * X**i + d * X**max(i - 1, 0))
         vals += [X**4 - 1, X**4, X**3 * (X - 1) + X**2 * (X - 1) + X * (X - 1) + X - 1, 2**256 - 1 - r, 2**256 - r, X**3 * 2**64 - 1]
+    if bits >= 256:
+        # the scalar as STORED 64-bit words: every word drawn from values that are boundaries of the base-|x| division steps (a remainder
+        # next to |x|, the quotient estimate at 2^32 / 2^64) - quick: {0, |x|-1, 2^64-1}^4, thorough: {0, |x|-2, |x|-1, |x|, 2^63, 2^64-1}^4
+        wal = (0, X - 1, 2**64 - 1) if tier != "thorough" else (0, X - 2, X - 1, X, 2**63, 2**64 - 1)
+        for ws4 in itertools.product(wal, repeat=4):
+            vals.append(sum(w << (64 * i) for i, w in enumerate(ws4)))
     if bits == 128:
         vals += [ref.G1_COFACTOR, ref.G1_COFACTOR - 1, ref.G1_COFACTOR + 1]
     if bits == 512:
